@@ -40,7 +40,7 @@ func init() {
 		},
 		Run: run,
 		Floors: func(t string) map[string]int64 {
-			return map[string]int64{"pair.hop": 500, "pair.axis": 300, "pair.ordinary": 300, "pair.twin": 200, "pair.gridshift": 100, "pair.krovak": 100, "pair.short_towgs84_list": 100, "history.built_from_used_references": 3000, "history.calls": 20000, "history.repeat_call": 2000, "history.to_registered_wgs84": 1000, "history.from_registered_wgs84": 1000, "history.from_an_edited_copy_of_S": 1000, "history.failing_input": 1000, "pair.one_side_cannot_be_set_up": 100,
+			return map[string]int64{"pair.hop": 500, "pair.axis": 300, "pair.ordinary": 300, "pair.twin": 200, "pair.gridshift": 100, "pair.krovak": 100, "pair.short_towgs84_list": 100, "pair.short_towgs84_list_in_wkt": 30, "history.built_from_used_references": 3000, "history.calls": 20000, "history.repeat_call": 2000, "history.to_registered_wgs84": 1000, "history.from_registered_wgs84": 1000, "history.from_an_edited_copy_of_S": 1000, "history.failing_input": 1000, "pair.one_side_cannot_be_set_up": 100,
 				"structure.failing_k": 10000, "structure.shared_backing_array": 1000, "structure.arbitrary_bit_patterns": 1000, "longpath.vertices>=2048": 15, "structure.nil_transformer": 1000, "structure.real_transformer": 1000, "structure.*Bounds": 100, "structure.GeometryCollection": 100, "structure.MultiPolygon": 100, "structure.MultiLineString": 100}
 		},
 	})
@@ -228,6 +228,7 @@ func runHistory(c *core.Ctx) {
 	default:
 		sdef, ddef = genIn(nil), genIn(nil)
 	}
+	wktShort := ""
 	if class == "ordinary" && r.Chance(0.3) {
 		// a +towgs84 list with 1, 2, 4, 5 or 6 terms (the missing ones are zero): whatever the
 		// library makes of it, it must make the same of it every time, without panicking
@@ -245,9 +246,21 @@ func runHistory(c *core.Ctx) {
 			ddef.Datum, ddef.DatKind = " +towgs84="+strings.Join(terms, ","), "towgs84_3"
 		}
 		c.Count("pair.short_towgs84_list")
+		if r.Chance(0.4) {
+			// the same list in a WKT definition of a geographic system
+			wktShort = `GEOGCS["short list",DATUM["D_short_list",SPHEROID["Bessel 1841",6377397.155,299.1528128],TOWGS84[` + strings.Join(terms, ", ") + `]],PRIMEM["Greenwich",0],UNIT["degree",0.0174532925199433]]`
+			c.Count("pair.short_towgs84_list_in_wkt")
+		}
 	}
 	c.Count("pair." + class)
 	S, D := sdef.String(), ddef.String()
+	if wktShort != "" {
+		if r.Bool() {
+			S = wktShort
+		} else {
+			D = wktShort
+		}
+	}
 	if r.Chance(0.12) {
 		// one side whose definition parses but whose projection cannot be set up (a projection
 		// the port does not implement, utm without a zone): every call fails, the first one and
